@@ -2,6 +2,7 @@
 
 RULE, ATRULE, CLOSE, DECL, INERT, END = range(6)
 NK = 6
+STMT = 6       # value-less statement, placed explicitly by the family generators below (never chosen as a free event)
 
 # slots are numbered from 1: with rotation 0 a document of K events uses entries 1..K of each list, so the most telling
 # variants come first
@@ -115,7 +116,7 @@ def build(kinds, rot=0, stmts=False):
             r.close = pos
             emit('}')
             r.end = pos
-        elif k == DECL and stmts and v % 3 == 2:
+        elif k == STMT or (k == DECL and stmts and v % 3 == 2):
             emit(WS[v % 4])
             ns = pos
             emit('@include r')
@@ -167,3 +168,29 @@ def offsets(items):
         else:
             out.update([it.start, it.name_end, it.vs, it.ve, it.semi, it.end])
     return sorted(out)
+
+
+def pool_family():
+    """Stylesheets that make the matchers re-use pooled range objects: a first top-level rule with a nested chain of depth 1..3
+    (declarations before / inside it), then a second top-level rule whose FIRST child is a declaration, a value-less statement or
+    an empty rule.  Returns event lists for build()."""
+    out = []
+    for depth in (1, 2, 3):
+        for pre in (0, 1):
+            for inner in (DECL, STMT, None):
+                for first in (DECL, STMT, RULE):
+                    for tail in (0, 1):
+                        ks = [RULE]
+                        if pre:
+                            ks.append(DECL)
+                        ks += [RULE] * (depth - 1)
+                        if inner is not None:
+                            ks.append(inner)
+                        ks += [CLOSE] * depth
+                        ks.append(RULE)
+                        ks += [RULE, CLOSE] if first == RULE else [first]
+                        if tail:
+                            ks.append(DECL)
+                        ks.append(CLOSE)
+                        out.append(ks)
+    return out
